@@ -73,6 +73,10 @@ var orderContracts = map[string]orderContract{
 	// Prove(hashes []Hash)
 	"(*Pollard).Prove":    {[]fieldOC{nil, {"": raw("H")}}},
 	"(*MapPollard).Prove": {[]fieldOC{nil, {"": raw("H")}}},
+	// look-ups: GetLeafPosition(hash Hash), GetLeafHashPositions(hashes []Hash), GetHash(pos uint64)
+	"(*MapPollard).GetLeafPosition":      {[]fieldOC{nil, nil}},
+	"(*MapPollard).GetLeafHashPositions": {[]fieldOC{nil, {"": raw("H")}}},
+	"(*MapPollard).GetHash":              {[]fieldOC{nil, nil}},
 }
 
 // layoutOverride: position parameters that are not in the current tree layout
@@ -558,6 +562,9 @@ func checkOutputLayout(p *Program, r *Report, or *orderRun, rule string, name st
 		v = v.fld(idx)
 	}
 	c := or.outs[fn].crdOf(v)
+	if c == 0 && v != nil {
+		c = v.Crd // a single position
+	}
 	switch {
 	case c == 0:
 		r.Undecided(rule, key, p.Pos(fn.Pos()), "the layout of the returned positions is unknown to the analysis")
